@@ -263,9 +263,11 @@ func (b *expandBody) expandChild(child hcl.Body, i *iteration, valueMarks cty.Va
 
 func (b *expandBody) JustAttributes() (hcl.Attributes, hcl.Diagnostics) {
 	// blocks aren't allowed in JustAttributes mode and this body can
-	// only produce blocks, so we'll just pass straight through to our
-	// underlying body here.
-	return b.original.JustAttributes()
+	// only produce blocks, so there is no expansion to do here, but the
+	// attributes still need the same preparation as in Content and
+	// PartialContent: hidden names filtered, iterator and marks applied.
+	attrs, diags := b.original.JustAttributes()
+	return b.prepareAttributes(attrs), diags
 }
 
 func (b *expandBody) MissingItemRange() hcl.Range {
